@@ -10,6 +10,7 @@ import dataclasses
 from mc import canon, charts, core, starts
 
 ID = "C14"
+LARGE = dict(quick="charts of 300 notes, every operation", thorough="charts of 300 and 1100 notes")
 TITLE = "Query, generate, convert and write operations never modify their inputs"
 RULE = (
     "history BFS: a state is a distinct canonical argument (chart/mapset/list reached by a short history); a transition is one library "
